@@ -15,7 +15,7 @@ from oracles.views import feature_views
 PID = "C07"
 RULE = (
     "Histories as data: one fitted object (every class, copy in {True, False}, every index style) and 1-12 "
-    "transform calls interleaved over a pool of frames: the training frame, a row subset, a permutation, a "
+    "transform calls interleaved over a pool of frames: the training frame, a row subset, the rows without missing values, a permutation, a "
     "re-indexed copy (offset ints / strings), the dev frame, and a 'cross' frame whose qualitative cells are "
     "partly replaced by other columns' values / unseen tokens with a pass-through column holding the same tokens, "
     "plus a subset of it. Oracle: (1) fit_transform == fit then transform on two fresh objects; (2) transform of "
@@ -30,7 +30,7 @@ ASSUMPTIONS = ["no side-effect claim is made for copy=False (the package documen
 BUDGET = {"quick": 900, "thorough": 15000}
 DEADLINE_S = {"quick": 220, "thorough": 3300}
 CLASSES = CARVERS + PIPELINES + STEPS + ("BinaryCarver", "ContinuousCarver", "Discretizer", "ChainedDiscretizer")
-FRAMES = ["train", "subset", "perm", "reindex", "dev", "cross", "cross_subset"]
+FRAMES = ["train", "subset", "complete_rows", "perm", "reindex", "dev", "cross", "cross_subset"]
 
 
 def strategy(tier):
@@ -65,6 +65,9 @@ def make_frames(case, sample, obj):
         if r % n not in rows:
             rows.append(r % n)
     frames = {"train": X, "subset": X.iloc[rows]}
+    complete = X.dropna()
+    if 0 < len(complete) < n:
+        frames["complete_rows"] = complete  # the rows without any missing value: the frame itself has none
     perm = list(range(n))
     random.Random(case["fkey"]).shuffle(perm)
     frames["perm"] = X.iloc[perm]
@@ -166,7 +169,7 @@ def check_case(case) -> Outcome:
         else:
             first[key] = res
         if not res.ok:
-            if name in ("train", "subset", "perm", "reindex", "dev"):
+            if name in ("train", "subset", "complete_rows", "perm", "reindex", "dev"):
                 out.violate(f"transform-of-accepted-data-raised:{name}:{res.bucket()}", f"{where}: raised {res.exc!r}")
                 return out
             if not isinstance(res.exc, AssertionError):
@@ -188,7 +191,7 @@ def check_case(case) -> Outcome:
             out.violate("non-feature-column-modified", f"{where}: {diff}")
             return out
         # purity against the full frame's result
-        base_name = {"subset": "train", "perm": "train", "reindex": "train", "cross_subset": "cross"}.get(name)
+        base_name = {"subset": "train", "complete_rows": "train", "perm": "train", "reindex": "train", "cross_subset": "cross"}.get(name)
         if base_name:
             if base_name not in first:
                 first[base_name] = observe(obj.transform, frames[base_name].copy())
@@ -204,7 +207,7 @@ def check_case(case) -> Outcome:
                     out.violate(f"row-wise-purity-broken:{name}", f"{where}: rows differ from the full frame's result: {diff}")
                     return out
     distinct = set(used)
-    out.nontrivial = len(used) >= 2 and len(distinct) >= 2 and bool(distinct & {"subset", "cross_subset"})
+    out.nontrivial = len(used) >= 2 and len(distinct) >= 2 and bool(distinct & {"subset", "complete_rows", "cross_subset"})
     for name in distinct:
         out.label(f"frame:{name}")
     return out
